@@ -64,7 +64,14 @@ func seed() int64 {
 func dirs(id string) (verif, repo, work string) {
 	verif = envOr("VERIF_DIR", "/verif")
 	repo = envOr("VERIF_REPO", "/repo")
-	work = filepath.Join(verif, ".work", id)
+	// one scratch directory per supervisor invocation: concurrent runs of the
+	// same check (e.g. a mutation experiment next to a normal run) must not
+	// delete each other's journal / result files
+	if w := os.Getenv("VERIF_WORK"); w != "" {
+		work = w
+	} else {
+		work = filepath.Join(verif, ".work", fmt.Sprintf("%s.%d", id, os.Getpid()))
+	}
 	return
 }
 
@@ -253,6 +260,7 @@ func supervise(id, tier string, rest []string) int {
 	cmd.Stdout = io.MultiWriter(os.Stdout, vc)
 	cmd.Stderr = logf
 	cmd.Env = append(os.Environ(),
+		"VERIF_WORK="+work,
 		"VERIF_SEED="+strconv.FormatInt(sd, 10),
 		"GORACE=halt_on_error=0 log_path="+filepath.Join(work, "race"),
 		"GOTRACEBACK=all",
@@ -458,18 +466,22 @@ func supervise(id, tier string, rest []string) int {
 	if m.Assumptions == nil {
 		ev["assumptions"] = []string{}
 	}
-	os.MkdirAll(filepath.Join(verif, "evidence"), 0o755)
+	// runs against another checkout (mutation / seeded-change experiments) must
+	// not overwrite the evidence of the real tree
+	evDir := filepath.Join(verif, "evidence")
+	if r := envOr("VERIF_REPO", "/repo"); r != "/repo" {
+		evDir = filepath.Join(verif, ".work", "evidence-other-repo")
+	}
+	os.MkdirAll(evDir, 0o755)
 	b, _ := json.MarshalIndent(ev, "", " ")
-	if err := os.WriteFile(filepath.Join(verif, "evidence", id+".json"), append(b, '\n'), 0o644); err != nil {
+	if err := os.WriteFile(filepath.Join(evDir, id+".json"), append(b, '\n'), 0o644); err != nil {
 		fmt.Fprintln(os.Stderr, "cannot write evidence:", err)
 		return 3
 	}
 	fmt.Printf("%s %s seed=%d: %s — %d evaluations, %d distinct non-trivial, %d violations, %d known findings, %.1fs\n",
 		id, tier, sd, verdict, res.Evaluations, res.Distinct, unknownViol, knownViol, time.Since(start).Seconds())
-	if exit != 2 || os.Getenv("VERIF_KEEP_WORK") == "" {
-		if exit == 0 {
-			os.RemoveAll(work)
-		}
+	if os.Getenv("VERIF_KEEP_WORK") == "" {
+		os.RemoveAll(work) // crash logs / race reports worth keeping were copied to replays/<ID>/
 	}
 	return exit
 }
